@@ -471,6 +471,10 @@ def run_case(case):
             _run_bad(bct, case, res)
         elif kind == 'big':
             _run_big(bct, case, res)
+        elif kind == 'seq':
+            _run_seq(bct, case, res)
+        elif kind == 'probe':
+            _run_probe(bct, case, res)
     except Timeout:
         res['stats']['timeout:harness'] = 1
     return res
@@ -489,22 +493,31 @@ def _run_bin(bct, case, res):
         return
     res['stats']['disconnected'] = int(np.isinf(oracle).any())
     res['stats']['multihop'] = int(np.any(np.isfinite(oracle) & (oracle >= 2)))
-    Aline = mstr(A)
+    # weighted representation: distance_bin / breadthdist / breadth / reachdist / efficiency_bin are documented to look only at
+    # which entries are non-zero; a fraction of the cases passes the same graph with arbitrary positive weights to them
+    Aw = A * np.array(case['wrep'], dtype=float) if case.get('wrep') is not None else A
+    res['stats']['weighted_rep'] = int(case.get('wrep') is not None)
+    Aline = mstr(A); Awline = mstr(Aw)
     outs = {}
-    st, out = call(bct.distance_bin, _rep(A, case), t=5, retry=10)
+    st, out = call(bct.distance_bin, _rep(Aw, case), t=5, retry=10)
     if _status(res, 'distance_bin', st, out, case):
         outs['distance_bin'] = np.asarray(out, dtype=float)
         _cmp_dist(res, 'distance_bin', out, oracle)
-    st, out = call(bct.breadthdist, _rep(A, case), t=5, retry=10)
+    st, out = call(bct.breadthdist, _rep(Aw, case), t=5, retry=10)
     if _status(res, 'breadthdist', st, out, case):
         R, D = out; outs['breadthdist'] = (np.asarray(R), np.asarray(D, dtype=float))
         _cmp_dist(res, 'breadthdist', D, oracle, diag_zero=False)
         _cmp_flag(res, 'breadthdist', R, D, oracle)
-    st, out = call(bct.reachdist, _rep(A, case, allow_int=False), t=5, retry=10)      # float only: it stores inf into a copy of its argument
+    st, out = call(bct.reachdist, _rep(Aw, case, allow_int=False), t=5, retry=10)      # float only: it stores inf into a copy of its argument
     if _status(res, 'reachdist', st, out, case):
         R, D = out; outs['reachdist'] = (np.asarray(R), np.asarray(D, dtype=float))
         _cmp_dist(res, 'reachdist', D, oracle, diag_zero=False)
         _cmp_flag(res, 'reachdist', R, D, oracle)
+    if case.get('opt_nobin'):       # non-default option on a binary matrix: ensure_binary=False must not change anything
+        st, out = call(bct.reachdist, _rep(A, case, allow_int=False), False, t=5, retry=10)
+        if _status(res, 'reachdist', st, out, case):
+            _cmp_dist(res, 'reachdist', out[1], oracle, diag_zero=False)
+            _cmp_flag(res, 'reachdist', out[0], out[1], oracle)
     st, out = call(bct.distance_wei, _rep(A, case), t=5, retry=10)
     if _status(res, 'distance_wei', st, out, case):
         D, B = out; outs['distance_wei'] = (np.asarray(D, dtype=float), np.asarray(B, dtype=float))
@@ -521,14 +534,14 @@ def _run_bin(bct, case, res):
         res['stats']['five_routines_agree'] = 1
     if 'distance_bin' in outs and 'breadthdist' in outs and 'reachdist' in outs:
         (bR, bD), (rR, rD) = outs['breadthdist'], outs['reachdist']
-        res['lines'].append(('bin n=%d A=%s' % (n, Aline),
+        res['lines'].append(('bin n=%d A=%s' % (n, Awline),
                              [('D', 'exact', mstr(outs['distance_bin'])), ('bR', 'exact', istr(bR)), ('bD', 'exact', mstr(bD)),
                               ('rR', 'exact', istr(rR)), ('rD', 'exact', mstr(rD)),
                               # verified certificate check (Lemmas/DistCert.lean: hopCert_sound) run by the model on D, bD(+bR), rD(+rR)
                               ('cert', 'exact', '111')]))
     if n >= 1:
         s = int(case.get('src', 0)) % n
-        st, out = call(bct.breadth, A.copy(), s, t=3, retry=10)
+        st, out = call(bct.breadth, Aw.copy(), s, t=3, retry=10)
         if _status(res, 'breadth', st, out, case):
             dist, branch = out
             want = oracle[s].copy()
@@ -536,20 +549,104 @@ def _run_bin(bct, case, res):
             m = np.arange(n) != s
             if not np.array_equal(dd[m], want[m]):
                 res['fails'].append(('breadth', 'min-length', {'source': s, 'out': mstr(dd), 'oracle': mstr(want)}))
-            res['lines'].append(('breadth n=%d A=%s s=%d' % (n, Aline, s), [('dist', 'exact', mstr(dist)), ('branch', 'exact', istr(branch))]))
+            res['lines'].append(('breadth n=%d A=%s s=%d' % (n, Awline, s), [('dist', 'exact', mstr(dist)), ('branch', 'exact', istr(branch))]))
     if n >= 2:
-        st, out = call(bct.efficiency_bin, _rep(A, case), t=5, retry=10)
+        st, out = call(bct.efficiency_bin, _rep(Aw, case), t=5, retry=10)
         if _status(res, 'efficiency_bin', st, out, case):
             want = meaninv_offdiag(oracle)
             if not close(float(out), want):
                 res['fails'].append(('efficiency_bin', 'mean-inverse', {'E': float(out), 'oracle': want}))
-            res['lines'].append(('effbin n=%d A=%s' % (n, Aline), [('E', 'tol', float(out))]))
+            res['lines'].append(('effbin n=%d A=%s' % (n, Awline), [('E', 'tol', float(out))]))
         for nm in ('distance_bin', 'breadthdist', 'reachdist', 'distance_wei'):
             if nm in outs:
                 Dn = outs[nm] if nm == 'distance_bin' else outs[nm][1] if nm in ('breadthdist', 'reachdist') else outs[nm][0]
                 _charpath_block(bct, res, case, Dn, oracle, nm, lean=(nm != 'distance_wei'))
     if not np.array_equal(A, A0):
         res['fails'].append(('distance', 'input-modified', {}))
+
+
+def _run_seq(bct, case, res):
+    """explicit short sequence in one process: the sub-cases (same n, mixed routines / representations / options) run in
+    order, each judged by its own oracles; hidden state carried from one call to the next shows as a failure of a later step"""
+    res['stats']['multihop'] = 1
+    for k, sub in enumerate(case['steps']):
+        r = {'fails': [], 'lines': [], 'stats': {}}
+        if case.get('only'):
+            sub = dict(sub, only=case['only'])
+        {'bin': _run_bin, 'wei': _run_wei, 'log': _run_log, 'flt': _run_log, 'nav': _run_nav}[sub['kind']](bct, sub, r)
+        for f, pr, info in r['fails']:
+            info = dict(info) if isinstance(info, dict) else {'info': info}
+            info['sequence_step'] = k
+            res['fails'].append((f, pr, info))
+        res['lines'] += r['lines']
+        for a, b in r['stats'].items():
+            if a.startswith('calls:') or a.startswith('timeout:') or a in ('paths_checked', 'weighted_rep'):
+                res['stats'][a] = res['stats'].get(a, 0) + b
+    res['stats']['sequence_steps'] = len(case['steps'])
+
+
+PROBE_ROUTINES = ['distance_bin', 'breadthdist', 'reachdist', 'reachdist_nobin', 'breadth', 'distance_wei', 'floyd_none', 'floyd_inv', 'floyd_log',
+                  'efficiency_bin', 'efficiency_wei', 'rout_efficiency', 'charpath', 'retrieve', 'navigation_wu',
+                  'pair_bin_reach', 'pair_wei_floyd', 'edit_distance_bin', 'edit_reachdist', 'edit_floyd', 'edit_breadthdist', 'edit_distance_wei']
+
+
+def _run_probe(bct, case, res):
+    """object-reuse probe (common.reuse_probe): f(A); mutate A in place (lesion one connection, add / re-weight another);
+    f(A) on the same object must equal f on fresh copies. `pair_*` call another routine on the shared object between the
+    two calls; `edit_*` scribble on the returned arrays before calling again."""
+    A = np.array(case['A'], dtype=float); n = len(A)
+    r = case['routine']
+    e1, e2, w = case['lesion'], case['add'], case['w']
+
+    def scribble(out):
+        for x in (out if isinstance(out, tuple) else (out,)):
+            if isinstance(x, np.ndarray) and x.size:
+                try:
+                    x[...] = 7
+                except (ValueError, TypeError):
+                    pass
+
+    def mut(args):
+        M = args[0]
+        M[e1[0], e1[1]] = 0
+        M[e2[0], e2[1]] = w
+        if case.get('und'):
+            M[e1[1], e1[0]] = 0; M[e2[1], e2[0]] = w
+
+    W = A.copy()
+    if r in ('floyd_inv', 'floyd_log', 'efficiency_wei'):
+        W[A != 0] = 1.0 / A[A != 0]
+    D0 = np.array(case['D'], dtype=float) if case.get('D') is not None else None
+    fns = {
+        'distance_bin': (bct.distance_bin, [A]), 'breadthdist': (bct.breadthdist, [A]), 'reachdist': (bct.reachdist, [A]),
+        'reachdist_nobin': (lambda M: bct.reachdist((M != 0).astype(float), False), [A]),
+        'breadth': (lambda M: bct.breadth(M, case['s']), [A]),
+        'distance_wei': (bct.distance_wei, [A]), 'floyd_none': (bct.distance_wei_floyd, [A]),
+        'floyd_inv': (lambda M: bct.distance_wei_floyd(M, 'inv'), [W]), 'floyd_log': (lambda M: bct.distance_wei_floyd(M, 'log'), [W]),
+        'efficiency_bin': (bct.efficiency_bin, [A]), 'efficiency_wei': (bct.efficiency_wei, [W]),
+        'rout_efficiency': (lambda M: bct.rout_efficiency(M)[:2], [A]),
+        'charpath': (lambda M: bct.charpath(bct.distance_wei(M)[0])[:2], [A]),
+        'retrieve': (lambda M: (lambda o: [list(np.asarray(bct.retrieve_shortest_path(a, b, o[1], o[2])).ravel())
+                                           for a in range(n) for b in range(n)])(bct.distance_wei_floyd(M)), [A]),
+        'navigation_wu': (lambda M, Dm: bct.navigation_wu(M, Dm, n), [A, D0]),
+        'pair_bin_reach': (lambda M: (bct.reachdist(M), bct.distance_bin(M), bct.breadthdist(M), bct.reachdist(M)), [A]),
+        'pair_wei_floyd': (lambda M: (bct.distance_wei_floyd(M), bct.distance_wei(M), bct.efficiency_bin(M), bct.distance_wei_floyd(M, 'inv')), [A]),
+        'edit_distance_bin': (lambda M: (scribble(bct.distance_bin(M)), bct.distance_bin(M))[1], [A]),
+        'edit_reachdist': (lambda M: (scribble(bct.reachdist(M)), bct.reachdist(M))[1], [A]),
+        'edit_breadthdist': (lambda M: (scribble(bct.breadthdist(M)), bct.breadthdist(M))[1], [A]),
+        'edit_distance_wei': (lambda M: (scribble(bct.distance_wei(M)), bct.distance_wei(M))[1], [A]),
+        'edit_floyd': (lambda M: (scribble(bct.distance_wei_floyd(M)), bct.distance_wei_floyd(M))[1], [A]),
+    }
+    fn, args = fns[r]
+    res['stats']['probe:' + r] = 1; res['stats']['multihop'] = 1
+    d = reuse_probe(fn, args, mut, t=6.0, tol=0.0)
+    if d is not None:
+        base = {'retrieve': 'retrieve_shortest_path', 'floyd_none': 'distance_wei_floyd', 'floyd_inv': 'distance_wei_floyd',
+                'floyd_log': 'distance_wei_floyd', 'reachdist_nobin': 'reachdist', 'pair_bin_reach': 'reachdist',
+                'pair_wei_floyd': 'distance_wei_floyd'}.get(r, r[5:] if r.startswith('edit_') else r)
+        if base == 'floyd':
+            base = 'distance_wei_floyd'
+        res['fails'].append((base, 'result-depends-on-history', {'probe': r, 'disagreement': d}))
 
 
 def lollipop(c, p):
@@ -937,6 +1034,30 @@ def gen_dist_cases(rs, tier):
                 if rs.rand() < .5:
                     A[i, i] = rs.choice([1, 2, 3])
             add('bad', A, what='self-loops')
+    # weighted representation (35 % of the binary cases) and the non-default ensure_binary=False (15 %)
+    for c in cases:
+        if c['kind'] == 'bin':
+            n_ = len(c['A'])
+            if rs.rand() < .35:
+                c['wrep'] = rs.choice([.25, .5, 2, 3, 5], size=(n_, n_)).tolist()
+            if rs.rand() < .15:
+                c['opt_nobin'] = True
+    # explicit short sequences on same-size inputs: weighted representation / binary / weighted again, lengths in between
+    for _ in range(300 if big else 25):
+        n = int(rs.randint(3, 8)); directed = bool(rs.rand() < .6)
+        def one(kind):
+            A = rand_len_graph(rs, n, float(rs.choice([.3, .5, .7])), directed, [1] if kind == 'bin' else [1, 2, 3])
+            c = {'kind': kind, 'A': A.tolist(), 'src': int(rs.randint(n))}
+            if kind == 'bin' and rs.rand() < .7:
+                c['wrep'] = rs.choice([.25, .5, 2, 3, 5], size=(n, n)).tolist()
+            if kind == 'bin' and rs.rand() < .3:
+                c['opt_nobin'] = True
+            return c
+        pat = [['bin', 'bin', 'bin'], ['bin', 'wei', 'bin'], ['wei', 'bin', 'wei'], ['bin', 'bin', 'wei', 'bin']][rs.randint(4)]
+        cases.append({'kind': 'seq', 'A': [[0] * n] * n, 'steps': [one(k) for k in pat], 'gen': 'sequence'})
+    # object-reuse probes, every routine of the property
+    for k in range(500 if big else 50):
+        cases.append(gen_probe(rs, PROBE_ROUTINES[k % len(PROBE_ROUTINES)]))
     # representation axis for a third of the binary / integer-length cases: dtype, memory order; scale (exact power of two)
     for c in cases:
         if c['kind'] in ('bin', 'wei') and rs.rand() < .35:
@@ -946,6 +1067,27 @@ def gen_dist_cases(rs, tier):
             k = float(2.0 ** int(rs.choice([-3, 3, 10])))
             c['A'] = (np.asarray(c['A'], dtype=float) * k).tolist(); c['scale'] = k
     return cases
+
+
+def gen_probe(rs, routine):
+    n = int(rs.randint(4, 8)); und = bool(rs.rand() < .4)
+    binr = routine in ('distance_bin', 'breadthdist', 'reachdist', 'reachdist_nobin', 'breadth', 'efficiency_bin', 'pair_bin_reach',
+                       'edit_distance_bin', 'edit_reachdist', 'edit_breadthdist')
+    pal = [1] if binr else [1, 2, 4]
+    A = rand_len_graph(rs, n, .5, not und, pal)
+    for _ in range(20):
+        if np.count_nonzero(A) >= 2:
+            break
+        A = rand_len_graph(rs, n, .6, not und, pal)
+    E = np.argwhere(A != 0); Z = np.argwhere((A == 0) & ~np.eye(n, dtype=bool))
+    e1 = E[rs.randint(len(E))] if len(E) else np.array([0, 1])
+    e2 = Z[rs.randint(len(Z))] if len(Z) else e1
+    c = {'kind': 'probe', 'routine': routine, 'A': A.tolist(), 'und': und, 'lesion': [int(e1[0]), int(e1[1])],
+         'add': [int(e2[0]), int(e2[1])], 'w': float(pal[rs.randint(len(pal))]), 's': int(rs.randint(n)), 'gen': 'probe'}
+    if routine == 'navigation_wu':
+        P = rs.randint(0, 4, size=(n, 2))
+        c['D'] = np.abs(P[:, None, :] - P[None, :, :]).sum(2).astype(float).tolist()
+    return c
 
 
 def gen_nav_cases(rs, tier):
